@@ -541,8 +541,37 @@ def quote_table(ctx, lexpr, pt):
                     o = common.origin(f, defs, s["rv"]["fields"][0])
                     if o["k"] == "call" and o["t"]["callee"].get("path", "") == "value::Value::symbol":
                         okk = True
+        # the same list built cell by cell: cons(symbol(name), cons(datum, Null))
+        def is_cons_ctor(t):
+            return t["callee"].get("path", "") in ("cons::Cons::new", "value::Value::cons") and len(t["args"]) == 2
+
+        def through_into(o):
+            # `.into()` / `Value::from(cons)` / `Value::Cons(cons)` wrappers around a cell
+            for _ in range(4):
+                if o["k"] == "call" and ({"std::convert::Into::into", "std::convert::From::from"} & F.callee_names(o["t"])) \
+                        and o["t"]["args"]:
+                    o = common.origin(f, defs, o["t"]["args"][0])
+                elif o["k"] == "agg" and o["rv"].get("vname") == "Cons" and o["rv"]["fields"]:
+                    o = common.origin(f, defs, o["rv"]["fields"][0])
+                else:
+                    break
+            return o
+
+        nested = False
+        for bi, t in f.calls():
+            if not is_cons_ctor(t):
+                continue
+            head = through_into(common.origin(f, defs, t["args"][0]))
+            rest = through_into(common.origin(f, defs, t["args"][1]))
+            if head["k"] == "call" and head["t"]["callee"].get("path", "") == "value::Value::symbol" \
+                    and rest["k"] == "call" and is_cons_ctor(rest["t"]):
+                tail = common.origin(f, defs, rest["t"]["args"][1])
+                if tail["k"] == "agg" and tail["rv"].get("vname") == "Null":
+                    nested = True
         if okk and list_calls:
             r.ok("%s builds Value::list([Value::symbol(name), datum])" % fp, f)
+        elif nested:
+            r.ok("%s builds cons(Value::symbol(name), cons(datum, ()))" % fp, f)
         else:
             r.violation(fp, "quotation-expansion", "%s no longer builds a two-element list headed by the shorthand's symbol" % fp, f.loc())
 
